@@ -402,7 +402,26 @@ impl CliCase {
             hard.retain(|c| !c.is_empty());
         }
         let w_all = if rng.chance(0.6) { 1 } else { rng.range(2, 9) as u32 };
-        let soft: Vec<(u32, Vec<i32>)> = gen_clauses(rng, num_vars, ns, 2)
+        // a covering-shaped family (hard: x_i \/ x_j for the edges of a random graph, soft: -x_i
+        // with weight 1): the first solution falsifies many soft clauses, so the upper-bound
+        // encodings are built for bounds well above 2 and tightened step by step
+        let covering = rng.chance(0.2);
+        let (num_vars, unweighted, hard, w_all) = if covering {
+            let n = rng.range(5, 11) as usize;
+            let mut edges: Vec<Vec<i32>> = vec![];
+            for i in 1..=n as i32 {
+                for j in i + 1..=n as i32 {
+                    if rng.chance(0.35) {
+                        edges.push(vec![i, j]);
+                    }
+                }
+            }
+            (n, true, edges, 1u32)
+        } else {
+            (num_vars, unweighted, hard, w_all)
+        };
+        let soft_clauses: Vec<Vec<i32>> = if covering { (1..=num_vars as i32).map(|i| vec![-i]).collect() } else { gen_clauses(rng, num_vars, ns, 2) };
+        let soft: Vec<(u32, Vec<i32>)> = soft_clauses
             .into_iter()
             .map(|c| {
                 let w = if unweighted {
